@@ -586,14 +586,23 @@ class StmtMixin:
             parts = [self.pat(given[f], ft, wild, collect_mut) if f in given else '_' for f, ft in fields]
             return '(' + ', '.join(parts) + ')' if len(parts) > 1 else parts[0]
         if k == 'POr':
-            alts = []
+            alts, bound_sets = [], []
             for a in p.alts:
                 self.push()
                 alts.append(self.pat(a, ty, wild, collect_mut))
-                bound = bool(self.scopes[-1])
+                bound_sets.append(dict(self.scopes[-1]))
                 self.pop()
-                if bound:
-                    self.fail('or-patterns that bind variables are not supported', p.line)
+            if any(bound_sets):
+                # every alternative must bind the same names at the same types (Rust requires it too); Lean accepts
+                # `| p1 | p2 => rhs` under exactly that condition
+                names0 = sorted(bound_sets[0])
+                for bs in bound_sets[1:]:
+                    if sorted(bs) != names0 or any(deep(res(bs[n].ty)) != deep(res(bound_sets[0][n].ty)) for n in names0):
+                        self.fail('or-pattern whose alternatives bind different variables', p.line)
+                if collect_mut:
+                    self.fail('`mut` bindings inside an or-pattern are not supported', p.line)
+                for n in names0:
+                    self.declare(n, bound_sets[0][n])
             return ' | '.join(alts)
         self.fail('pattern kind %s' % k, p.line)
 
